@@ -34,6 +34,8 @@ def run(ctx):
     ctx.rule(stft_streaming)
     ctx.rule(si_finalize)
     ctx.rule(carry)
+    ctx.rule(shift_register)
+    ctx.rule(carry_reset)
 
 
 def driver(ctx, R="R-C01-driver"):
@@ -268,3 +270,99 @@ def carry(ctx, R="R-C01-carry"):
     want = S.emax(S.ZERO, S.add(S.floordiv(S.sub(S.add(S.sym("chunk_len"), S.sym("buf_len")), sc.L), sc.Sh), S.ONE))
     sc.same(ctx, R, f, nfr[0], "[causal] frames emitted by a chunk = max(0, (available - L)//S + 1)", v, want,
             dict(sc.DOM, chunk_len=sc.DOM["N"], buf_len=sc.DOM["buf_len"]))
+
+
+def shift_register(ctx, R="R-C01-shift-register"):
+    """The short-integration raw-sample buffer is a shift register: every update either
+    shifts it left by n and writes n new samples at its right end, or overwrites it
+    with the *most recent* len(buffer) samples of the block being pushed."""
+    prog = ctx.prog
+    c = prog.cls("compute.ShortIntegrationFrameComputer")
+    n_w = 0
+    Lsym = S.sym("LEN")
+    for f in c.methods.values():
+        if f.name == "__init__" or not f.params:
+            continue
+        s_ = f.params[0]
+        stores = [n for n in f.body_nodes() if isinstance(n, ast.Assign) and isinstance(n.targets[0], ast.Subscript)
+                  and astq.is_self_attr(n.targets[0].value, s_, "_x_buf") and isinstance(n.targets[0].slice, ast.Slice)]
+        if not stores:
+            continue
+        ev = SymEval(prog, f, inline_props=False)
+        ev.env = {}
+        lenmap = {S.sym("self._dft_size"): Lsym, S.call("len", S.sym("self._x_buf")): Lsym}
+
+        def E(node):
+            if node is None:
+                return S.NONE
+            e = ev.expr(node)
+            # local aliases of the buffer length
+            for nm in ("x_len",):
+                e = S.subst(e, {S.sym(nm): Lsym})
+            return S.subst(e, lenmap)
+
+        def norm_lo(e):  # slice lower bound: None -> 0, negative k -> LEN + k
+            if e == S.NONE:
+                return S.ZERO
+            if e.op == "neg":
+                return S.sub(Lsym, e.args[0])
+            return e
+
+        def norm_hi(e):
+            if e == S.NONE:
+                return Lsym
+            if e.op == "neg":
+                return S.sub(Lsym, e.args[0])
+            return e
+
+        for st in stores:
+            n_w += 1
+            t, v = st.targets[0].slice, st.value
+            tlo, thi = norm_lo(E(t.lower)), norm_hi(E(t.upper))
+            if isinstance(v, ast.Subscript) and astq.is_self_attr(v.value, s_, "_x_buf") and isinstance(v.slice, ast.Slice):
+                # shift: buf[:A] = buf[B:]  with A + B == LEN
+                vlo = norm_lo(E(v.slice.lower))
+                ok = tlo == S.ZERO and v.slice.upper is None and S.compare(S.add(thi, vlo), Lsym, domain={})["verdict"] == "equal"
+                ctx.check(ok, R, f, st, "shifting keeps the newest samples: buf[:L-n] = buf[n:]",
+                          "the raw-sample buffer is shifted inconsistently (%s): samples are lost or duplicated between chunks" % astq.text(st)[:100])
+                continue
+            # data written into the buffer
+            if not (isinstance(v, (ast.Subscript, ast.Name))):
+                continue
+            if isinstance(v, ast.Name):
+                continue  # whole block written into a slice of matching length (checked by NumPy at run time)
+            if not isinstance(v.slice, ast.Slice):
+                continue
+            full = tlo == S.ZERO and thi == Lsym
+            vlo_raw, vhi_raw = v.slice.lower, v.slice.upper
+            if full:
+                prefix = (vlo_raw is None or astq.text(vlo_raw) == "0") and vhi_raw is not None and not (isinstance(vhi_raw, ast.UnaryOp))
+                ctx.check(not prefix, R, f, st, "a block longer than the buffer leaves its most recent samples in the buffer",
+                          "when the pushed block is at least as long as the buffer, its *first* samples are kept (%s); the overlap-save "
+                          "convolution of the following samples needs the most recent ones, so the next frames are wrong"
+                          % astq.text(st)[:100])
+                if not prefix:
+                    # suffix form: [a - LEN : a] or [-LEN:]
+                    lo, hi = E(vlo_raw), E(vhi_raw)
+                    if hi == S.NONE:
+                        ok = lo.op == "neg" and lo.args[0] == Lsym
+                    else:
+                        ok = S.compare(S.sub(hi, lo), Lsym, domain={})["verdict"] == "equal"
+                    ctx.check(ok, R, f, st, "the overwrite takes exactly len(buffer) samples ending where the pushed block ends",
+                              "full overwrite takes %s" % astq.text(v)[:80])
+            else:
+                # tail write: buf[L-n:] = data[...] ; n samples
+                ok_t = thi == Lsym
+                ctx.check(ok_t, R, f, st, "new samples are written at the right end of the buffer", "new samples are written at %s" % astq.text(st.targets[0])[:80])
+    ctx.floor(R, n_w, 2)
+
+
+def carry_reset(ctx):
+    """finalize leaves no carried state behind on any of its exits (shared with C04's
+    reset-completeness rule: a fill count or first-frame flag surviving an early return of
+    finalize makes the next chunked computation differ from compute_full)."""
+    from . import c04
+
+    prog = ctx.prog
+    for cname in ("compute.ShortTimeFourierTransformFrameComputer", "compute.ShortIntegrationFrameComputer"):
+        c04.reset(ctx, prog.cls(cname), R="R-C01-carry-reset")
